@@ -479,6 +479,10 @@ func checkC05(p *core.Program, r *core.Report) {
 	const R10 = "C05.R10 connection-carries-every-payload"
 	r.Rule(R10, "the surviving connection carries SPINE payloads of any size: no receive-side message size limit (shared with C06.R7); a limit lets the handshake complete and then kills every connection at the first larger datagram, on every reconnect again")
 	importRules(p, r, "C06", map[string]string{"C06.R7 no-message-size-limit": R10}, nil)
+	// R11: a visible peer is reported with every address it can be dialled at
+	const R11 = "C05.R11 visible-peer-keeps-its-addresses"
+	r.Rule(R11, "the mDNS layer drops only IPv6 link-local addresses from a resolved entry and merges the rest (shared with C17.R2): a paired, visible peer whose only addresses were filtered out is dialled at its .local host name alone, which most resolvers cannot resolve - both hubs stay at zero connections")
+	importRules(p, r, "C17", map[string]string{"C17.R2 address-hygiene": R11}, nil)
 }
 
 // checkKeepRule discovers the double-connection decision function and
